@@ -1323,7 +1323,7 @@ def check_decisions(ctx, rep, rng, tier):
         outl = []
         for s, c in zip(sizes, crcs):
             if len(stream) - pos < s:
-                want = "Fuel"
+                want = "Bad7z"    # Worker.decompress: Bad7zFile after MAX_STALLED_ROUNDS rounds without output
                 break
             g = stream[pos:pos + s]
             if zlib.crc32(g) != c:
